@@ -4,14 +4,13 @@ Real code executed: Crop.reap, reap_combos, reap_combos_to_ds, reap_runner, reap
 reap_samples, calc_clean_up_default_res, check_ready_to_reap, delete_all, Reaper.
 """
 from ..common import Cond, concretize, cbool, done, HarnessError, make_cond, split_conds
-from ..env import WaitTimeout
+from ..env import WaitTimeout, Env
 from .cropkit import CROP_FUNCS, SYM, REAL, grid, mkfn, crop_dir
 
 import xyzpy.gen.cropping as cp
 from xyzpy.gen.combo_runner import combo_runner
 from xyzpy.utils import XYZError
 
-CONFORMANCE = ("fakefs",)
 FUNCS = CROP_FUNCS
 
 
@@ -96,6 +95,130 @@ def body_raw(E, cu, ai, wait, stage, which, base):
         return again == ref and not env.exists(crop_dir(env))
 
 
+# ---------------------------------------------------------------------------
+# farmer-attached crops: Runner / Harvester / Sampler x failure stage
+def FSYM(**kw):
+    kw.setdefault("fs", "obj")
+    kw.setdefault("xr", True)
+    kw.setdefault("pd", True)
+    return Env("sym", **kw)
+
+
+def body_farmer(E, kind, stage, cu, base):
+    """stage: 0 none, 1 wrong number of var_names, 2 merge conflict with existing data, 3 saving raises"""
+    from .xrkit import fingerprint, same_fp, rows_of
+    from .C15 import install_choice
+    import xyzpy.gen.farming as fm
+    import xyzpy.manage as mg
+    from xyzpy.gen.farming import Runner, Harvester, Sampler
+
+    kind = concretize(kind, 0, 2)
+    stage = concretize(stage, 0, 3)
+    cu = concretize(cu, 0, 2)
+    clean_up = [None, True, False][cu]
+    eff_clean = True if clean_up is None else clean_up
+    if stage == 2 and kind != 1:
+        stage = 0
+    if stage == 3 and kind == 0:
+        stage = 0
+    if stage == 1 and kind == 2:
+        stage = 0            # the DataFrame form does not reject a wrong number of var_names
+    E2 = FSYM if E is SYM else E
+    with E2() as env:
+        def fn(a, b=20):
+            return base + 100 * a + b
+
+        good = "x"
+        names = ("x", "y") if stage == 1 else good
+        runner = Runner(fn, names)
+        ref_runner = Runner(fn, good)
+        combos = {"a": [10, 11, 12]}
+        dname = env.parent + "/data.h5"
+        sname = env.parent + "/smp.pkl"
+        if kind == 0:
+            farmer = runner
+        elif kind == 1:
+            farmer = Harvester(runner, data_name=dname)
+            if stage == 2:
+                # existing data that conflicts with what the crop will deliver (value + 1)
+                Harvester(Runner(lambda a, b=20: fn(a, b) + 1, good), data_name=dname).harvest_combos(
+                    {"a": [10]}, verbosity=0)
+        else:
+            farmer = Sampler(runner, data_name=sname, default_combos={"a": [10, 11], "b": [20]})
+            install_choice(env, [0, 0, 1, 0, 0, 0, 0, 0])
+        crop = farmer.Crop(name="fc", parent_dir=env.parent, batchsize=2)
+        if kind == 2:
+            crop.sow_samples(3, verbosity=0)
+        else:
+            crop.sow_combos(combos, verbosity=0)
+        for i in (1, 2):
+            cp.grow(i, crop=crop, verbosity=0)
+        cdir = env.parent + "/.xyz-fc"
+        snap = env.snapshot(cdir)
+        fails = [1]
+        if stage == 3:
+            real_save_ds, real_save_df = fm.save_ds, fm.save_df
+
+            def failing(real):
+                def save(*a, **k):
+                    if fails:
+                        fails.pop()
+                        raise OSError("disk full")
+                    return real(*a, **k)
+                return save
+
+            env._set(fm, "save_ds", failing(real_save_ds))
+            env._set(fm, "save_df", failing(real_save_df))
+        raised = False
+        try:
+            out = crop.reap(clean_up=clean_up)
+        except Exception:  # noqa
+            raised = True
+        if stage == 0:
+            if raised:
+                return False
+            if env.exists(cdir) != (not eff_clean):
+                return False
+            if not eff_clean and not env.same_snapshot(snap, env.snapshot(cdir)):
+                return False
+        else:
+            # every failing reap leaves every crop file in place
+            if not raised or not env.exists(cdir) or not env.same_snapshot(snap, env.snapshot(cdir)):
+                return False
+            # correct the cause, reap again
+            if stage == 1:
+                if kind == 0:
+                    crop.farmer.var_names = good
+                else:
+                    crop.farmer.runner.var_names = good
+                out = crop.reap(clean_up=clean_up)
+            elif stage == 2:
+                out = crop.reap(clean_up=clean_up, overwrite=True)
+            else:
+                out = crop.reap(clean_up=clean_up)
+            if env.exists(cdir) != (not eff_clean):
+                return False
+        # the delivered data is exactly the direct run's
+        if kind == 2:
+            rows = rows_of(env, farmer.full_df)
+            if len(rows) != 3:
+                return False
+            for r in rows:
+                if r["out" if False else "x"] != base + 100 * r["a"] + r["b"]:
+                    return False
+            return rows_of(env, mg.load_df(sname)) == rows
+        ref = ref_runner.run_combos(combos, verbosity=0)
+        if not same_fp(fingerprint(env, out), fingerprint(env, ref)):
+            return False
+        if kind == 1:
+            disk = mg.load_ds(dname)
+            ok = same_fp(fingerprint(env, disk), fingerprint(env, ref))
+            if env.mode == "real":
+                disk.close()
+            return ok
+        return True
+
+
 BODIES = {}
 _G = globals()
 
@@ -106,6 +229,14 @@ CONDS = [
                      "{no failure, result of batch 1|2 missing, result of batch 1|2 unreadable}; followed by the "
                      "corrected retry (grow_missing / check_bad) and a second reap"),
 ]
+
+CONDS += split_conds(
+    _G, "farmer", body_farmer, "stage:int cu:int base:int", ["0 <= stage <= 3 and 0 <= cu <= 2"], "kind", [0, 1, 2],
+    timeout=600,
+    bounds="farmer-attached crops (kind 0 Runner, 1 Harvester, 2 Sampler) of 2 batches; failure injected at: "
+           "dataset construction (wrong number of var_names), harvester merge conflict, saving the merged data "
+           "(save_ds / save_df raising once); clean_up None/True/False; then the corrected retry")
+CONFORMANCE = ("fakefs", "minixr", "minipd")
 
 ASSUMPTIONS = [
     "file system replaced by FakeFS in object mode; an unreadable result is a marker on which read_from_disk "
